@@ -1,5 +1,6 @@
 import PysphVerif.Driver.Common
 import PysphVerif.Model.Determinism
+import PysphVerif.Model.TreeReduce
 /-!
 Line protocol for C05 (Float, bit patterns):
 
@@ -13,6 +14,11 @@ Line protocol for C05 (Float, bit patterns):
       (`Determinism.runLoop` with `foldPair 0.75`).
       answers `acc=<fl> cnt=<il>` of the destination rows.
   `sort ids=<il> keys=<il>`   answers `sortNbrs` of the ids by their keys.
+  `hmax oct=<il> h=<fl> chunks=<il|il|…> sched=<il>`
+      level-1 reduction of the parallel octree build (`TreeReduce.parHmax` at
+      Float, initial value 0.0): particle `p` lies in octant `oct[p]` and has
+      smoothing length `h[p]`; `chunks` hands the particles to the threads,
+      `sched` is the interleaving.  answers the 8 entries of `hmax_children`.
 -/
 namespace PysphVerif.Driver.C05
 open PysphVerif.Wire PysphVerif.Determinism
@@ -62,10 +68,26 @@ def handleSort (kv : List (String × String)) : Option String := do
   if ids.length ≠ keys.length then none
   else pure (showList toString (sortNbrs (keyOf (ids.zip keys)) ids))
 
+def handleHmax (kv : List (String × String)) : Option String := do
+  let oct ← (lookup kv "oct") >>= parseList? parseNat?
+  let h ← (lookup kv "h") >>= parseList? parseFloatBits?
+  let chunks ← (lookup kv "chunks") >>= parseLists
+  let sched ← (lookup kv "sched") >>= parseList? parseNat?
+  if oct.length ≠ h.length then none
+  else if oct.any (fun o => o ≥ 8) then none
+  else if chunks.any (fun c => c.any (fun p => p ≥ h.length)) then none
+  else
+    let octA := oct.toArray
+    let hA := h.toArray
+    let tab := PysphVerif.TreeReduce.parHmax (0.0 : Float) (fun p => octA.getD p 0)
+      (fun p => hA.getD p 0.0) h.length chunks sched
+    pure (showList showFloatBits ((List.range 8).map tab))
+
 def handle (line : String) : String :=
   match tokens line with
   | "loop" :: rest => (handleLoop (kvs rest)).getD "bad-op"
   | "sort" :: rest => (handleSort (kvs rest)).getD "bad-op"
+  | "hmax" :: rest => (handleHmax (kvs rest)).getD "bad-op"
   | _ => "bad-op"
 
 end PysphVerif.Driver.C05
